@@ -2,11 +2,14 @@ package zzverif
 
 import (
 	"bufio"
+	"context"
 	"encoding/json"
 	"fmt"
 	"net/url"
 	"os"
+	"runtime/debug"
 	"strings"
+	"sync"
 	"time"
 
 	mrserver "github.com/alicebob/miniredis/v2/server"
@@ -237,6 +240,62 @@ func (d *driver) browse(st *Step) {
 		"outcome": outcome, "idpVisits": visits, "hops": hops + 1})
 }
 
+// parallelFlows runs several browsers' login flows truly in parallel (no gates): each follows its redirects to OK.
+func (d *driver) parallelFlows(st *Step) {
+	d.parallel = true
+	d.orphan = &checkRun{id: "orphan", n: 0, f: d.env.spec.Filters[0].Name}
+	defer func() { d.parallel = false }()
+	var wg sync.WaitGroup
+	for i := 0; i < st.D; i++ {
+		wg.Add(1)
+		go func(i int) {
+			defer wg.Done()
+			b := fmt.Sprintf("p%d", i+1)
+			f := d.env.spec.Filters[i%len(d.env.spec.Filters)]
+			next := Step{Op: "check", B: b, F: f.Name, Kind: "app", Cookie: "jar", URL: i % len(urlPool), Ans: st.Ans}
+			for hop := 0; hop < 5; hop++ {
+				d.big.Lock()
+				c, req := d.prepare(&next)
+				d.big.Unlock()
+				func() {
+					defer func() {
+						if r := recover(); r != nil {
+							c.pan, c.stack = r, string(debug.Stack())
+						}
+					}()
+					c.resp, c.err = d.env.filter.Check(context.WithValue(context.Background(), checkKey{}, c), req)
+				}()
+				d.big.Lock()
+				d.finishCheck(c)
+				br := d.browser(b)
+				loc := br.lastLoc
+				sidVal := br.jar[cookieName(&f)]
+				lg := d.logins[sidVal]
+				d.big.Unlock()
+				if c.resp == nil || c.resp.GetDeniedResponse() == nil || c.resp.GetDeniedResponse().GetStatus().GetCode() != 302 {
+					return
+				}
+				u, err := url.Parse(loc)
+				au, _ := url.Parse(d.authzEndpoint(&f))
+				switch {
+				case err != nil:
+					return
+				case u.Host == au.Host && u.Path == au.Path && lg != nil:
+					d.big.Lock()
+					d.doAuthz(b, lg)
+					d.big.Unlock()
+					next = Step{Op: "check", B: b, F: f.Name, Kind: "callback", Cookie: "jar", St: "jar", Code: "jar", Ans: st.Ans}
+				case u.Host == appHost:
+					next = Step{Op: "check", B: b, F: f.Name, Kind: "app", Cookie: "jar", URL: i % len(urlPool), Ans: st.Ans}
+				default:
+					return
+				}
+			}
+		}(i)
+	}
+	wg.Wait()
+}
+
 func (d *driver) doAuthz(b string, lg *login) {
 	br := d.browser(b)
 	code, sym := d.idp.authorize(lg)
@@ -259,6 +318,8 @@ func (d *driver) runScenario(sc *Scenario) (err error) {
 	d.brs = map[string]*browser{}
 	d.forged = 0
 	d.scID = sc.ID
+	d.codeOwner = map[string]*checkRun{}
+	d.rtReader = map[string]*checkRun{}
 	if sc.Store != "" {
 		for i := range sc.Cfg.Filters {
 			sc.Cfg.Filters[i].Store = sc.Store
@@ -314,6 +375,8 @@ func (d *driver) runScenario(sc *Scenario) (err error) {
 			d.rec.emit(map[string]any{"ev": "noop", "c": "authz"})
 		case "browse":
 			d.browse(st)
+		case "parallel":
+			d.parallelFlows(st)
 		case "keyset":
 			d.setKeySet(st.Value)
 			d.rec.emit(map[string]any{"ev": "keyset", "set": ifs(st.Value == "", "k1k2", st.Value)})
